@@ -24,24 +24,30 @@ KEY_ABOVE = "refill-level-above-burst"
 
 
 def dir_boundary(rng):
-    """Direction tuples (level, max, rate) per n around every branch of the refill, level <= max."""
+    """Direction tuples (level, max, rate) per n around every branch of the refill, level <= max.
+    Returns (edge, rest): edge = exactly at / one off the guard and the unsigned-subtraction edges."""
     out = []
+    edge = []
     maxes = [1, 2, 3, 1000, 2 ** 32, 2 ** 32 + 1, 2 ** 62, SMAX - 1, SMAX]
     ns = [1, 2, 3, 1000, 2 ** 16, IMAX - 1, IMAX]
     for mx in maxes:
         rates = sorted({r for r in (1, 2, 3, mx // 3, mx // 2, mx - 1, mx) if 1 <= r <= mx})
         for rt in rates:
             for n in ns:
-                levels = {SMIN, SMIN + 1, -1, 0, 1, mx - 1, mx, -mx, mx // 2}
+                levels = {SMIN + 1, -1, 0, 1, mx - 1, -mx, mx // 2}
                 # both sides of the guard (max-level)/n < rate  <=>  max-level < n*rate
-                for d in (-1, 0, 1, n - 1, n, -n):
+                for d in (n - 1, n, -n):
                     levels.add(mx - (n * rt + d))
+                elev = {mx - (n * rt + d) for d in (-1, 0, 1)} | {SMIN, mx}
                 # max - level near 2^63 / 2^64 (the unsigned subtraction)
-                levels |= {mx - 2 ** 63, mx - 2 ** 63 + 1, mx - 2 ** 63 - 1}
-                for lv in levels:
+                elev |= {mx - 2 ** 63, mx - 2 ** 63 + 1, mx - 2 ** 63 - 1}
+                for lv in elev:
+                    if SMIN <= lv <= mx:
+                        edge.append((n, lv, mx, rt))
+                for lv in levels - elev:
                     if SMIN <= lv <= mx:
                         out.append((n, lv, mx, rt))
-    return out
+    return edge, out
 
 
 def dir_random(rng, count):
@@ -81,10 +87,10 @@ def pair_up(rng, dirs, limit):
     return vecs[:limit] if limit else vecs
 
 
-def skip_vectors(rng):
+def skip_vectors(rng, q=False):
     """n = 0, time going backwards (n > INT_MAX), tick counter wrap-around."""
     vecs = []
-    for last in (0, 1, 5, NM - 1, 2 ** 31, rng.randrange(NM)):
+    for last in ((0, NM - 1, rng.randrange(NM)) if q else (0, 1, 5, NM - 1, 2 ** 31, rng.randrange(NM))):
         for n in (0, IMAX + 1, IMAX + 2, NM - 1, NM - 2, 2 ** 31 + 12345):
             vecs.append((rng.randrange(-1000, 500), -7, last, 3, 500, 9, 1000, (last + n) % NM))
         for n in (1, IMAX):     # not skipped, across the wrap
@@ -96,7 +102,7 @@ def above_vectors(rng, extra):
     """Levels above the burst (reachable via a negative bufferevent_decrement_*_limit)."""
     vecs = []
     for mx, rt, n in ((1000, 1000, 1), (1000, 1, 3), (2 ** 32, 2 ** 32, IMAX), (2 ** 62, 2 ** 62, 1), (1, 1, 1), (SMAX, 1, 1)):
-        for lv in (mx + 1, mx + 2, 2 * mx, mx + 5000, SMAX):
+        for lv in (mx + 1, 2 * mx, SMAX):
             if mx < lv <= SMAX:
                 vecs.append((lv, 0, 7, rt, mx, 1, 10, 7 + n))
                 vecs.append((0, lv, NM - 1, 1, 10, rt, mx, (NM - 1 + n) % NM))
@@ -135,9 +141,9 @@ def run(tier, seed):
     rall = rc.prove_many(chk, A64, th)["ExactAll64"]
 
     # ---- 3. vectors on the compiled functions
-    bnd = dir_boundary(rng)
-    nb, nr = (150, 60) if q else (1400, 600)
-    upd = skip_vectors(rng) + pair_up(rng, bnd, nb) + pair_up(rng, dir_random(rng, 2 * nr), nr)
+    edge, rest = dir_boundary(rng)
+    ne, nb, nr = (60, 25, 25) if q else (900, 500, 600)
+    upd = skip_vectors(rng, q) + pair_up(rng, edge, ne) + pair_up(rng, rest, nb) + pair_up(rng, dir_random(rng, 2 * nr), nr)
     extra = []
     if rall["cex"] and rall["itf"]:
         s = rc.itf_state(rall["itf"], 0)
@@ -150,13 +156,13 @@ def run(tier, seed):
     mpts = [1, 2, 3, 7, 999, 1000, 1001, 60000, IMAX, NM - 1]
     ticks = [(s, u, m) for s in secs for u in usecs for m in mpts]
     rng.shuffle(ticks)
-    ticks = ticks[:60 if q else 400] + [(rng.randrange(0, 2 ** 34), rng.randrange(10 ** 6), rng.randrange(1, 5000)) for _ in range(20 if q else 150)]
+    ticks = ticks[:30 if q else 400] + [(rng.randrange(0, 2 ** 34), rng.randrange(10 ** 6), rng.randrange(1, 5000)) for _ in range(10 if q else 150)]
 
     rates = [0, 1, 2, 1000, SMAX - 1, SMAX, SMAX + 1, 2 ** 64 - 1]
     tvs = [(0, 0, 0), (1, 0, 0), (1, 0, 999), (1, 0, 1000), (1, 0, 999999), (1, 1, 0), (1, 1, 500), (1, 2147483, 0), (1, 2147483, 999999),
            (1, 2147484, 0), (1, -1, 0), (1, -1, 500000), (1, SMIN, 0), (1, 2 ** 40, 0), (1, SMAX, 999999), (1, 0, 1999), (1, 3600, 1)]
     cfgs = []
-    for _ in range(70 if q else 500):
+    for _ in range(25 if q else 500):
         r1, b1, r2, b2 = (rng.choice(rates) for _ in range(4))
         if rng.random() < 0.6:      # mostly valid rate pairs so that the tick length decides
             r1, b1 = sorted((max(1, min(SMAX, r1)), max(1, min(SMAX, b1))))
